@@ -2,7 +2,7 @@
 \* choice of the force limit {2, 3, 5} at every step
 SPECIFICATION CSpec
 CONSTANTS
-  Variant = "fixed"
+  Variant = "catchup"
   E = 0
   VPerO = 1
   MaxZ = 4
